@@ -28,12 +28,15 @@ package main
 // the session).
 // ---------------------------------------------------------------------------------------------
 //@ ghost var outCount map[int]int
+// total number of messages handed to any session (never decreases)
+//@ ghost var outTotal int
 
 // queueOut hands one message to the session's write loop or reports failure; it touches no topic state.
 //@ func (s *Session) queueOut(msg *ServerComMessage) (ok bool)
 //@   trusted
-//@   modifies outCount[s]
+//@   modifies outCount[s], outTotal
 //@   ensures outCount[s] == old(outCount[s]) + 1
+//@   ensures outTotal == old(outTotal) + 1
 
 // broadcastToSessions fans a message out; a stuck session is detached, which can end a call in progress and
 // thereby publish a replacement message (so lastID may grow), but never lowers lastID or renames the topic.
@@ -215,6 +218,7 @@ package main
 //@   requires [C11] identity:  actsAsSelfOrRoot(s, msg)
 //@   requires [C13] s != nil && msg != nil && msg.Pub != nil && globals.hub != nil
 //@   modifies *
+//@   ensures [C13] answered: outTotal > old(outTotal) || sentTotal() > old(sentTotal())
 //@   nopanic
 //@   safe
 //@ func (s *Session) subscribe(msg *ClientComMessage)
@@ -233,6 +237,7 @@ package main
 //@   requires [C13] s != nil && msg != nil && msg.Leave != nil && globals.hub != nil && store.Store != nil
 //@   requires [C13,assumed] live: s.inflightReqs != nil
 //@   modifies *
+//@   ensures [C13] answered: outTotal > old(outTotal) || sentTotal() > old(sentTotal())
 //@   nopanic
 //@   safe
 //@ func (s *Session) get(msg *ClientComMessage)
@@ -241,6 +246,7 @@ package main
 //@   requires [C11] identity:  actsAsSelfOrRoot(s, msg)
 //@   requires [C13] s != nil && msg != nil && msg.Get != nil && globals.hub != nil
 //@   modifies *
+//@   ensures [C13] answered: outTotal > old(outTotal) || sentTotal() > old(sentTotal())
 //@   nopanic
 //@   safe
 //@ func (s *Session) set(msg *ClientComMessage)
@@ -249,6 +255,7 @@ package main
 //@   requires [C11] identity:  actsAsSelfOrRoot(s, msg)
 //@   requires [C13] s != nil && msg != nil && msg.Set != nil && globals.hub != nil
 //@   modifies *
+//@   ensures [C13] answered: outTotal > old(outTotal) || sentTotal() > old(sentTotal())
 //@   nopanic
 //@   safe
 //@ func (s *Session) del(msg *ClientComMessage)
@@ -257,6 +264,7 @@ package main
 //@   requires [C11] identity:  actsAsSelfOrRoot(s, msg)
 //@   requires [C13] s != nil && msg != nil && msg.Del != nil && globals.hub != nil
 //@   modifies *
+//@   ensures [C13] answered: outTotal > old(outTotal) || sentTotal() > old(sentTotal())
 //@   nopanic
 //@   safe
 //@ func (s *Session) acc(msg *ClientComMessage)
@@ -524,3 +532,9 @@ package main
 //@ func decodeStoreErrorExplicitTs(err error, id string, topic string, serverTs time.Time, incomingReqTs time.Time, params map[string]any) (res *ServerComMessage)
 //@   modifies inferred
 //@   ensures [C13] echoes_id: res != nil && res.Ctrl != nil && res.Ctrl.Id == id
+
+// {del user}: every path ends with a reply to the requester.
+//@ func replyDelUser(s *Session, msg *ClientComMessage)
+//@   requires [C13] s != nil && msg != nil && msg.Del != nil
+//@   modifies *
+//@   ensures [C13] answered: outTotal > old(outTotal)
